@@ -24,6 +24,8 @@ def scenarios(tier):
     type_sets += [("INS", "INS", "SNV", "SNV"), ("SNV", "DEL", "DEL", "SNV"), ("MNP", "SNV", "INS", "SNV")]
     # a record with two ALT alleles (genotype 1/2): `phase` leaves it alone, the harness phases it in the original VCF
     type_sets += [("SNV", "MULTI", "SNV", "SNV"), ("MULTI", "SNV", "DEL", "MULTI")]
+    # a record whose genotype is not called (./.) under the reads: never phased, and no obstacle for the others
+    type_sets += [("SNV", "MISS", "SNV", "SNV"), ("SNV", "SNV", "MISS", "DEL")]
     if T:
         type_sets += [("DEL", "INS", "MNP", "SNV"), ("SNV", "SNV", "DEL", "INS"), ("INS", "SNV", "SNV", "MNP")]
     for k in (2, 3, 4):
@@ -47,15 +49,17 @@ def build_world(sc):
     for i, t in enumerate(sc["types"]):
         if t == "MULTI":
             vs.append({"pos": 60 + 45 * i, "kind": "SNV", "len": 1, "multi": True})
+        elif t == "MISS":
+            vs.append({"pos": 60 + 45 * i, "kind": "SNV", "len": 1})
         else:
             vs.append({"pos": 60 + 45 * i, "kind": t, "len": 2 if t in ("INS", "DEL", "MNP") else 1})
-    haps = [([1 + a, 2 - a] if t == "MULTI" else [a, 1 - a]) for a, t in zip(sc["hp"], sc["types"])]
+    haps = [([1 + a, 2 - a] if t == "MULTI" else "miss" if t == "MISS" else [a, 1 - a]) for a, t in zip(sc["hp"], sc["types"])]
     world = {"seed": sc["seed"], "chroms": [{"name": "chrA", "length": 60 + 45 * k + 70, "variants": vs}], "samples": ["S1"], "haps": {"S1": {"chrA": haps}}, "reads": []}
     chroms = ["chrA"]
     if sc["cover"] == "chromosome-untagged":
         # a second chromosome that is phased by `phase` but has no alignment at all in the tagged BAM
         world["chroms"].append({"name": "chrB", "length": 60 + 45 * k + 70, "variants": [dict(v) for v in vs]})
-        world["haps"]["S1"]["chrB"] = [list(h) for h in haps]
+        world["haps"]["S1"]["chrB"] = [h if isinstance(h, str) else list(h) for h in haps]
         chroms.append("chrB")
     # reads: per block, reads covering the whole block on both haplotypes (never two blocks)
     for c in chroms:
